@@ -6,10 +6,12 @@ package main
 // Controls test the checker, not the repository: if the anchor text of a control no longer exists it is skipped.
 
 import (
+	"encoding/json"
 	"fmt"
 	"os"
 	"path/filepath"
 	"runtime"
+	"sort"
 	"strings"
 )
 
@@ -33,6 +35,42 @@ type ControlResult struct {
 }
 
 var controls []Control
+
+// jsonControl is the on-disk form of a control under <verif>/controls/*.json (written by diff2control.py from a
+// unified diff: every hunk becomes one exact-text replacement, so a control still skips cleanly when its anchor moves).
+type jsonControl struct {
+	Name     string      `json:"name"`
+	Props    []string    `json:"props"`
+	File     string      `json:"file"`
+	Edits    [][2]string `json:"edits"`
+	Negative bool        `json:"negative"`
+	Expect   string      `json:"expect"`
+	Why      string      `json:"why"`
+}
+
+var jsonControlsLoaded bool
+
+// loadJSONControls adds the controls stored as JSON files (idempotent).
+func loadJSONControls(verifDir string) {
+	if jsonControlsLoaded {
+		return
+	}
+	jsonControlsLoaded = true
+	files, _ := filepath.Glob(filepath.Join(verifDir, "controls", "*.json"))
+	sort.Strings(files)
+	for _, f := range files {
+		b, err := os.ReadFile(f)
+		if err != nil {
+			continue
+		}
+		var jc jsonControl
+		if err := json.Unmarshal(b, &jc); err != nil || len(jc.Edits) == 0 {
+			fmt.Fprintf(os.Stderr, "control file %s unreadable: %v\n", f, err)
+			continue
+		}
+		controls = append(controls, Control{Name: jc.Name, Props: jc.Props, File: jc.File, Old: jc.Edits[0][0], New: jc.Edits[0][1], Edits: jc.Edits[1:], Negative: jc.Negative, Expect: jc.Expect, Why: jc.Why})
+	}
+}
 
 func addControls(cs ...Control) { controls = append(controls, cs...) }
 
